@@ -569,6 +569,10 @@ class Executor:
             cur = ev.eval(_load(n.target))
             ev._aug_target = n.target
             v = ev.binop(n.op, cur, ev.eval(n.value), n)
+            if isinstance(cur, Arr) and isinstance(v, Arr) and isinstance(n.target, ast.Name):
+                # `a op= b` on an ndarray writes through (the name keeps denoting the same array)
+                self._store(st, cur, ast.Slice(lower=None, upper=None, step=None), v, n, ev)
+                return k(st)
             self._assign(st, n.target, v, n, aug=True)
             return k(st)
         if isinstance(n, ast.Assert):
@@ -652,6 +656,11 @@ class Executor:
         st.writes.append(("heap", root.owner, base.root))
         if getattr(self.contract, "no_param_writes", False) and str(root.owner).startswith("param:"):
             self.oblige(st, False, f"no_store_into_parameter.L{node.lineno - self.fx.lineno}", "frame", node.lineno)
+        if getattr(self.contract, "param_writes_only_if", None) and str(root.owner).startswith("param:"):
+            self.oblige(st, self.spec(st, self.contract.param_writes_only_if), f"store_into_parameter_allowed.L{node.lineno - self.fx.lineno}", "frame", node.lineno)
+        if isinstance(sl, ast.Tuple) and len(sl.elts) == 2 and isinstance(sl.elts[0], ast.Constant) and sl.elts[0].value is Ellipsis \
+                and isinstance(sl.elts[1], ast.Slice) and getattr(self.contract, "batched_last_axis", False):
+            sl = sl.elts[1]
         if isinstance(sl, ast.Slice):
             tgt = ev.slice_view(base, sl, node)
             if tgt.step != 1:
@@ -976,7 +985,7 @@ class Evaluator:
 
     def e_Set(self, n):
         vals = [self.eval(e) for e in n.elts]
-        if not all(isinstance(v, (str, int)) for v in vals):
+        if not all(v is None or isinstance(v, (str, int)) for v in vals):
             raise Outside("set of non-literals")
         return frozenset(vals)
 
